@@ -182,29 +182,36 @@ They quantify over the real `Unmarshal`/`Marshal` (parameters `unm`, `mar`: opti
 because the L3 model of `arshal*.go` is outside this slice.  `dupFree`/`utf8OK` stand for "no object at any depth
 has two names that are equal after unescaping or resolve to the same Go field / map key" and "well-formed UTF-8". -/
 
+section Full
+variable {T V G : Type}
+variable (unm : (allowDup allowBadUTF8 : Bool) → T → Bytes → Option V)
+variable (unmInto : (allowDup : Bool) → T → V → Bytes → Option V)
+variable (mar : (allowDup allowBadUTF8 : Bool) → G → Option Bytes)
+variable (dupFree : T → Bytes → Prop) (utf8OK noDupNames : Bytes → Prop)
+variable (splitDup : Bytes → Bytes × Bytes → Prop) (sanitize : Bytes → Bytes)
+
 /-- Default options: whatever is accepted was unambiguous. -/
-def unm_no_dups_full {T V : Type} (unm : (allowDup allowBadUTF8 : Bool) → T → Bytes → Option V)
-    (dupFree : T → Bytes → Prop) (utf8OK : Bytes → Prop) : Prop :=
+def unm_no_dups_full : Prop :=
   ∀ t b v, unm false false t b = some v → dupFree t b ∧ utf8OK b
 
 /-- The Allow* options differ in nothing else: on unambiguous input they change no result. -/
-def permissive_eq_full {T V : Type} (unm : (allowDup allowBadUTF8 : Bool) → T → Bytes → Option V)
-    (dupFree : T → Bytes → Prop) (utf8OK : Bytes → Prop) : Prop :=
+def permissive_eq_full : Prop :=
   ∀ t b ad au, dupFree t b → utf8OK b → unm ad au t b = unm false false t b
 
-/-- AllowDuplicateNames: a later member merges into / replaces the earlier one as if it had arrived in a second call. -/
-def later_wins_full {T V : Type} (unmInto : (allowDup : Bool) → T → V → Bytes → Option V)
-    (split : Bytes → Bytes × Bytes → Prop) : Prop :=
-  ∀ t v0 b b1 b2, split b (b1, b2) → unmInto true t v0 b = (unmInto false t v0 b1).bind (fun v1 => unmInto false t v1 b2)
+/-- AllowDuplicateNames: a later member merges into / replaces the earlier one as if it had arrived in a
+second call (`splitDup b (b1, b2)`: `b1` is `b` without the later member, `b2` holds only the later member). -/
+def later_wins_full : Prop :=
+  ∀ t v0 b b1 b2, splitDup b (b1, b2) →
+    unmInto true t v0 b = (unmInto false t v0 b1).bind (fun v1 => unmInto false t v1 b2)
 
 /-- Marshal never emits an object with duplicate names, nor ill-formed UTF-8, under default options. -/
-def marshal_no_dups_full {G : Type} (mar : (allowDup allowBadUTF8 : Bool) → G → Option Bytes)
-    (noDupNames utf8OK : Bytes → Prop) : Prop :=
+def marshal_no_dups_full : Prop :=
   ∀ g out, mar false false g = some out → noDupNames out ∧ utf8OK out
 
 /-- AllowInvalidUTF8 differs from the default only by one U+FFFD per ill-formed byte and the missing error. -/
-def utf8_only_diff_full {T V : Type} (unm : (allowDup allowBadUTF8 : Bool) → T → Bytes → Option V)
-    (sanitize : Bytes → Bytes) : Prop :=
+def utf8_only_diff_full : Prop :=
   ∀ t b, unm false true t b = unm false false t (sanitize b)
+
+end Full
 
 end JsonV.Props.C08
